@@ -1,5 +1,6 @@
 import AtsimModel.Model.Eam
 import Mathlib.Data.String.Basic
+import AtsimModel.Lemmas.KernelQ
 /-!
 # C04 — Finnis-Sinclair densities land in the slot the consumer reads for that pair
 
@@ -192,4 +193,19 @@ theorem C04_cluster (nrho : Nat) (drho : Rat) (nr : Nat) (dr : Rat) (els : List 
   rw [List.getElem?_eq_getElem (by simp)]
   simp
 
+end Atsim.C04
+
+/-! ## kernel ties: the arithmetic the code uses at these places, regenerated from the source on every run, is the model's -/
+namespace Atsim.C04
+open Atsim.Gen Atsim.E
+set_option linter.unusedTactic false
+set_option linter.unusedSimpArgs false
+theorem C04_kernel_args (nrho : Nat) (drho : Rat) (nr : Nat) (dr : Rat) :
+    k_setfl_fs_args.map (evalQ (envQ [nrho, drho, nr, dr])) = [(nrho : Rat), drho, (nr : Rat), dr] ∧
+    k_tabeam_fs_args.map (evalQ (envQ [nrho, drho, nr, dr])) = [(nrho : Rat), drho, (nr : Rat), dr] := by
+  constructor
+  · kernel_unfold [k_setfl_fs_args]
+    kernel_close
+  · kernel_unfold [k_tabeam_fs_args]
+    kernel_close
 end Atsim.C04
